@@ -281,7 +281,7 @@ def main():
     text_out = "\n".join(L) + "\n"
     old = open(OUT).read() if os.path.exists(OUT) else None
     if old != text_out:
-        open(OUT, "w").write(text_out)
+        os.makedirs(os.path.dirname(OUT), exist_ok=True); open(OUT, "w").write(text_out)
         print("srcfacts: rewrote", os.path.normpath(OUT))
     os.makedirs(os.path.join(V, ".cache"), exist_ok=True)
     json.dump({"funs": {k: {"static": v["static"], "callees": sorted(v["callees"]), "addr_taken": sorted(v["addr_taken"]), "indirect": v["indirect"], "file": v["file"], "line": v["line"]} for k, v in funs.items()},
